@@ -17,6 +17,78 @@ E2 = 'semz3'
 
 # id -> dict(engine, category, text, note, technique, design)
 CHECKS = {
+ 'C01': dict(
+    engine=E2, category='model_checking', design='6 C01',
+    text='Soundness is decided compositionally: trunk lemma (this check, z3 equivalence of the real build_trunk '
+         'output with "premises designated, conclusion not"), rule lemma (C04), closure lemma (C05), freshness '
+         '(C06) give: a closed tableau is a refutation, for every argument, option combination and tie-break '
+         'order. The composition is cross-checked on real runs: the real prover under pysymex with both option '
+         'flags symbolic; on every path ending valid z3 searches a countermodel of the specification semantics '
+         'with |W|<=3, |D|<=3 (confirmed by a plain-Python evaluator before reporting).',
+    note='Argument shapes are enumerated (family + propositional, by seed); countermodels beyond 3 worlds / elements '
+         'are outside the bound; oracle spec/tables.py; runs that applied a rule listed as a C04 known finding are '
+         'attributed to it.',
+    technique='SMT countermodel search (z3) over real prover runs + SMT lemmas on real rule output'),
+ 'C02': dict(
+    engine=E2, category='model_checking', design='6 C02',
+    text='On every real run that ends invalid, for every open branch without a limit flag, z3 decides whether any '
+         'interpretation of the specification semantics satisfies all nodes of the branch (unsat = the branch '
+         'should have closed or is unsaturated); the library model of the branch is evaluated with the library '
+         'evaluator on every node and is_countermodel_to must hold.',
+    note='Branches with more than 4 worlds or constants are outside the bound; two tie-break seeds, three option '
+         'settings; argument shapes enumerated. Identity-rule incompleteness is a listed known finding.',
+    technique='SMT satisfiability of open branches (z3) + evaluation of the library model'),
+ 'C03': dict(
+    engine=E2, category='model_checking', design='6 C03',
+    text='For every propositional shape of the family and every logic z3 decides validity over all assignments of '
+         'the logic\'s values (one query, not an enumeration); the real prover runs under pysymex with both option '
+         'flags symbolic (4 paths) and must complete without limit flags with the same verdict.',
+    note='Quick: P(0), 100 of P(1), 150 of P(2) per logic by seed; thorough: P(0..1) complete, 6000 of P(2), 1500 of '
+         'P(3). The termination certificate of the design was not built; termination is observed per run.',
+    technique='SMT validity (z3) against real prover runs with symbolic options'),
+ 'C09': dict(
+    engine=E1, category='model_checking', design='6 C09',
+    text='The real prover runs under pysymex with the search configuration symbolic: both optimisation flags '
+         '(symbolic booleans), build vs. step loop and premise order/multiplicity (symbolic picks), tie-break '
+         'seeds enumerated; per (logic, argument) no path raises and all non-limit outcome classes coincide.',
+    note='18 arguments per logic (quick), 2 seeds; tie-break orders are sampled by seed, not exhausted.',
+    technique='proxy-based symbolic execution (pysymex) over option flags and call modes'),
+ 'C10': dict(
+    engine=E1, category='model_checking', design='6 C10',
+    text='Renaming: constants are built from z3 integers (pairwise distinct) and the real prover runs under pysymex; '
+         'one exploration partitions all injective namings into the order/equality types the code distinguishes; '
+         'all paths must agree. Letters, predicates, variables: five adverse concrete renamings. Reflexivity and '
+         'monotonicity on real runs.',
+    note='Symbolic naming on 8 logics (quick) for shapes with 2-3 constants; 12 arguments per logic for the concrete '
+         'part; premise pool of 13 sentences.',
+    technique='proxy-based symbolic execution (pysymex) over symbol names + metamorphic runs'),
+ 'C11': dict(
+    engine=E2, category='model_checking', design='6 C11',
+    text='Per declared pair, z3 finds a map between the value sets that commutes with all operators and generalised '
+         'connectives and reflects designation, and shows frame-class inclusion over all relations on 3 worlds '
+         '(spec and extracted tables); prover cross-check on real runs per pair.',
+    note='98 declared pairs; 30 family + 60 propositional arguments per pair (quick).',
+    technique='SMT search for a countermodel-transferring embedding (z3) + real prover runs'),
+ 'C12': dict(
+    engine=E1, category='model_checking', design='6 C12',
+    text='Sentence shapes of the parsers\' language with symbolic symbol picks: Polish ASCII rendering parses back '
+         'to an equal sentence, argument strings rebuild equal arguments, renderings are injective per (notation, '
+         'format, dialect, options) over the union of all paths; product exploration of the real standard parser '
+         'and a reference parser on symbolic strings: returned sentence == denoted sentence.',
+    note='19 shapes, index at the ends of the range, subscripts {0,1,10} (quick) / {0,1,9,10,11,100}; standard '
+         'input length <= 4 (quick) / 5 over a reduced alphabet. Round trip of the standard writer is not claimed by '
+         'the property and not checked.',
+    technique='proxy-based symbolic execution (pysymex): symbolic strings, product with a reference parser'),
+ 'C13': dict(
+    engine=E1, category='model_checking', design='6 C13',
+    text='The real parsers run on symbolic input strings (characters fixed lazily by n-ary picks, so a rejected prefix '
+         'covers all continuations) in product with a reference parser: only ParseError, accept/reject agreement, '
+         'returned sentences closed/non-vacuous/arity-correct, every path validated against the complete real entry '
+         'point on its witness, history independence.',
+    note='Polish length <= 5 (quick) / 6, standard <= 4 / 5, reduced alphabets (all symbol classes, digits 0,1,9, '
+         'space, foreign char); thorough adds the full alphabet at length 4. Stub: the retry wrapper of '
+         'StandardParser.__call__ is mirrored (it formats the input into a str) and validated per path.',
+    technique='proxy-based symbolic execution (pysymex) on symbolic strings, product with a reference parser'),
  'C04': dict(
     engine=E2, category='proof', design='6 C04',
     text='Every non-closure rule class of every logic is run (the real rule object on a real branch) and '
